@@ -152,18 +152,26 @@ def run_property(pid, tier, seed, jobs=None):
         pool = ctx.Pool(processes=n, maxtasksperchild=int(getattr(mod, "MAXTASKS", 25)))
         try:
             t_first = None
-            for r in pool.imap_unordered(_work, [(modname, s) for s in shapes], chunksize=1):
-                results.append(r)
-                if "error" not in r:
-                    triage(r)
+            it = pool.imap_unordered(_work, [(modname, s) for s in shapes], chunksize=1)
+            pending = len(shapes)
+            while pending:
+                try:
+                    r = it.next(timeout=2.0)
+                except mp.TimeoutError:
+                    r = None
+                if r is not None:
+                    pending -= 1
+                    results.append(r)
+                    if "error" not in r:
+                        triage(r)
                 if confirmed and t_first is None:
                     t_first = time.time()
                 # a broken tree must fail fast: once a violation is confirmed, collect a little more and stop
                 if t_first is not None and (time.time() - t_first > 15 or len({c["finding_key"] for c in confirmed}) >= 3):
-                    stopped_early = True
+                    stopped_early = pending > 0
                     break
                 if sum(1 for x in results if "error" in x) >= 3:
-                    stopped_early = True
+                    stopped_early = pending > 0
                     break
         finally:
             pool.terminate()
